@@ -66,8 +66,10 @@ func (w *XW) rawRequest(serverIdx int, payload []byte, closeWrite bool, maxWait 
 		_ = stream.CloseWrite()
 	}
 	for len(out.frames) < 300 {
-		if w.ReaderPause > 0 && len(out.frames) > 0 {
-			w.S.YieldAfter("slow-reader", w.ReaderPause) // a slow reader: back pressure on the server's writes
+		if w.ReaderPause > 0 && len(out.frames) > 0 && len(out.frames) <= 5 {
+			// a slow reader: back pressure on the server's writes (for the first frames only: the
+			// reader's own pauses must stay well inside the time the request is given)
+			w.S.YieldAfter("slow-reader", w.ReaderPause)
 		}
 		resp := new(p2p_pb.HeaderResponse)
 		if _, err := serde.Read(stream, resp); err != nil {
